@@ -47,7 +47,58 @@ pub fn replay(cases: &[Value], out: &mut Out) {
 		for (_, e) in eps {
 			e.shutdown().await;
 		}
+		// ---- a fragmented message with a control frame between its fragments (hand-rolled peer), request mode only
+		if cases.iter().any(|c| c["mode"] == "req") {
+			let probs = fragment_then_pong().await;
+			if !probs.is_empty() {
+				out.raw(&json!({"i": 0, "k": 0, "extra": true, "key": probs[0].0, "detail": probs[0].1}));
+			}
+		}
 	});
+}
+
+/// max_request_body_size = 100.  A request of 180 bytes, sent as: its first 80 bytes as a non-final fragment, a PONG, then its
+/// last 100 bytes as a message of their own.  No message on the wire is above the limit - and no request above the limit may be
+/// put together from them and dispatched; the connection keeps serving.
+async fn fragment_then_pong() -> Vec<(String, Value)> {
+	let rig = Rig::new(RigCfg { max_req: 100, max_resp: 10240, ..Default::default() });
+	let (stop, _handle) = jsonrpsee_server::stop_channel();
+	let Ok(mut ws) = RawWs::connect(rig.svc(stop.clone()), stop.clone(), 1 << 20).await else {
+		return vec![("req:tower:ws:fragment-then-pong:connect-failed".into(), Value::Null)];
+	};
+	let marker = "f".repeat(120);
+	let request = format!(r#"{{"jsonrpc":"2.0","id":1,"method":"echo","params":["{marker}"]}}"#);
+	let (head, tail) = request.as_bytes().split_at(80);
+	rig.take_log();
+	let _ = ws.send_frame(false, 0x1, head).await;
+	let _ = ws.send_frame(true, 0xA, b"").await;
+	let _ = ws.send_frame(true, 0x1, tail).await;
+	let _ = ws.send_frame(true, 0x1, br#"{"jsonrpc":"2.0","id":"probe","method":"echo","params":["probe"]}"#).await;
+	let mut frames = vec![];
+	let mut probe_answered = false;
+	while let Some((op, payload)) = ws.read_frame(std::time::Duration::from_secs(3)).await {
+		if op == 0x1 || op == 0x2 {
+			let t = String::from_utf8_lossy(&payload).into_owned();
+			probe_answered |= t.contains("\"probe\"") && t.contains("result");
+			frames.push(t);
+			if probe_answered {
+				break;
+			}
+		} else if op == 0x8 {
+			break;
+		}
+	}
+	let log = rig.take_log();
+	let mut probs = vec![];
+	if log.iter().any(|e| e["h"] == "echo" && e["params"].to_string().contains(&marker)) {
+		probs.push((
+			"req:tower:ws:fragment-then-pong:request-above-the-limit-dispatched".to_string(),
+			json!({"limit": 100, "request_len": request.len(), "frames": frames, "log": log}),
+		));
+	} else if !probe_answered {
+		probs.push(("req:tower:ws:fragment-then-pong:connection-not-serving-later-messages".to_string(), json!({"frames": frames})));
+	}
+	probs
 }
 
 async fn endpoint_bp<'a>(eps: &'a mut HashMap<String, Endpoint>, entry: &str, req: u32) -> &'a Endpoint {
